@@ -129,13 +129,20 @@ fn emit_history(out: &mut Out, tag: &str, hist: usize, history: &[MigrationPlan]
             let lp = MigrationPlan { actions: plan.actions.iter().map(|a| gener::literal_action(&out.literal, a)).collect(), ..plan.clone() };
             mysql_sql(&lp, &lb).0
         };
+        // ... and of the plan rewritten by MigrationPlan::with_prefix (what the CLI / macro do with a configured prefix)
+        let with_prefix = if out.literal.is_empty() {
+            Value::Null
+        } else {
+            let lb: Vec<TableDef> = baseline.iter().map(|t| gener::literal_table(&out.literal, t)).collect();
+            mysql_sql(&plan.clone().with_prefix(&out.literal), &lb).0
+        };
         let kinds: Vec<&str> = plan.actions.iter().map(kind_of).collect();
         out.rows.push(json!({
             "tag": tag, "hist": hist, "step": k,
             "baseline_g": baseline.gs(), "actions_g": plan.actions.gs(), "after_g": after_g,
             "baseline": baseline, "plan": plan, "history_len": history.len(),
             "replay_ok": after.is_ok(),
-            "result": result, "whole": whole, "literal": literal, "action_kinds": kinds, "n_tables": baseline.len(),
+            "result": result, "whole": whole, "literal": literal, "with_prefix": with_prefix, "action_kinds": kinds, "n_tables": baseline.len(),
         }));
         if after.is_err() {
             return;
